@@ -1434,8 +1434,11 @@ def _run_specs(specs, cmds):
     elif captured == "hiddenobject":
         if not background:
             cp.end()
+        else:
+            cp._release_connecting_pipes()
         return cp
     elif background:
+        cp._release_connecting_pipes()
         return
     elif captured == "stdout":
         cp.end()
